@@ -119,6 +119,24 @@ def run(ctx):
             ctx.violation("%s:%s:%s:%s" % (v["kind"], r["name"], " ".join(r["flags"]), v.get("state", v.get("input"))),
                           "end-of-input behaviour of the gcc-built parser differs from the model: %s" % json.dumps(v)[:500], {"program": r["src"], "flags": r["flags"], "detail": v})
             break
+    # ---- end-of-input against the procedural reading (Ref/RefSem.v): the EOF shapes at every level, validated by the
+    # simulation certificate of C01 with the end-of-input symbol among the symbols of interest (the machine-level
+    # certificates above cannot see an end() that reports FAIL where the `end` clause should have run)
+    import refsem
+    from props import c01
+    erk = refsem.ensure_refk()
+    rd = None
+    if erk:
+        ctx.violation("refk-build", "the extracted validator does not build: " + erk[:200], {"broken": "coq/Ref or extraction"}, found_input=False)
+    else:
+        def eof_progs():
+            r2 = random.Random(rng.getrandbits(48))
+            for i in range(60 if quick else 600):
+                p_, src_ = gen.gen_eof_shape(random.Random(r2.getrandbits(48)))
+                yield p_, src_, ["-feof-support"]
+        rd = c01.validate(ctx, eof_progs(), ["-O0", "-O3"] if quick else ["-O0", "-O1", "-O2", "-O3"], False, "c17", "c01_compiled_trace_is_a_reading", "Props.C01", 0)
+    if rd is not None:
+        ctx.coverage["reading_validated_with_end_of_input"] = {"cases": len(rd["cases"]), "certified": rd["okc"], "rejected": rd["nviol"]}
     ctx.coverage.update({
         "programs_x_option_sets": len(good), "end_moves_compared": sum(r["steps"] for r in good), "runs_ending_in_end": sum(r["runs"] for r in good),
         "certificates_end_safe": dict(ncert), "skipped": dict(skipped), "disagreements": nviol,
